@@ -2,12 +2,13 @@
    ExtrOcamlBasic only; no Extract Constant. *)
 Require Extraction.
 Require Import ExtrOcamlBasic.
-From NV Require Import Base.Result Base.Bytes Model.TlvMem Model.T2T Model.T1T.
+From NV Require Import Base.Result Base.Bytes Model.TlvMem Model.T2T Model.T1T Model.T2Sector.
 Cd "../extract/ml".
 Extraction "tags_tlv.ml"
   Model.T2T.t2_retry_obs Model.T2T.t2_rewrite_obs Model.T1T.t1_rewrite_obs Model.T2T.t2_write_obs Model.T2T.t2_cut_obs Model.T2T.t2_format_obs Model.T2T.t2_fresh Model.T2T.t2_capacity
   Model.T2T.wf_layoutb Model.T2T.t2_layout Model.T2T.t2_free_after_tag Model.TlvMem.room
   Model.T1T.t1_retry_obs Model.T1T.t1_write_obs Model.T1T.t1_format_obs Model.T1T.t1_cut_obs Model.T1T.t1_fresh Model.T1T.t1_capacity
   Model.T1T.t1_wf_layoutb Model.T1T.t1_layout Model.T1T.t1_free_after_tag
+  Model.T2Sector.sector_select
   Model.TlvMem.lock_byte_range Model.TlvMem.rsvd_byte_range Model.TlvMem.get_capacity.
 Cd "../../coq".
